@@ -3,10 +3,10 @@
 WT=$1; N=$2
 export GOFLAGS=-mod=mod GOPROXY=off
 cd "$WT" || exit 2
-git checkout -q -- . ; git checkout -q --detach "$(git -C /repo rev-parse HEAD)" 2>/dev/null
+git checkout -q -- . ; git clean -fdq -e benign -e seeded -e crd.bin; git checkout -q --detach "$(git -C /repo rev-parse HEAD)" 2>/dev/null
 git apply benign/$N/patch.diff || { echo "BENIGN $(basename $WT)/$N: patch does not apply"; exit 1; }
 go build ./... >/tmp/bbuild.out 2>&1; b=$?
-out=$(/verif/bin/crdcheck -p all -repo "$WT" -noevidence 2>&1); rc=$?
+out=$(${CRDCHECK:-/verif/bin/crdcheck} -p all -repo "$WT" -noevidence 2>&1); rc=$?
 f=$(echo "$out" | grep '^FINDING' | sed 's/.*rule=\([A-Z0-9-]*\) kind=\([a-z]*\) construct="\([^"]*\)".*/\1(\2):\3/' | sort -u | tr '\n' ' ')
-git checkout -q -- .
+git checkout -q -- . ; git clean -fdq -e benign -e seeded -e crd.bin
 echo "BENIGN $(basename $WT)/$N: build=$b rc=$rc ${f:-silent} $(echo "$out" | grep 'cannot analyse\|internal error' | head -1 | cut -c1-200)"
